@@ -28,6 +28,7 @@ ASSUMPTIONS = [
     "reference: Foundry's prank rules as the per-frame state machine of mc/refcheats.py (prank over an active prank is an error; a prank applies to the next CALL/STATICCALL/CREATE made by the pranking frame to a non-cheatcode address; nested frames and cheatcode calls do not consume it)",
     "DELEGATECALL/CALLCODE under a prank and calls to the console address are outside the alphabet (Foundry's behaviour cannot be confirmed offline)",
     "state cheatcodes: values written are read back through the corresponding opcode in the same and in another frame; vm.store on a non-existent account and cheatcodes issued from frames that later revert are outside the alphabet",
+    "vm.addr: keys over {1,2,5,6,n-1} (valid secp256k1 keys; halmos leaves invalid keys unspecified), addresses computed by the pure-python curve arithmetic of mc/secp.py (checked against the known address of key 1); vm.sign is outside the alphabet",
     "fresh symbols: the value returned is compared with the reference `next value of an input tape, truncated / sign-extended / range-checked as the type says` for every tape value of a grid; padding bytes after dynamic content are not compared",
 ]
 
@@ -289,6 +290,87 @@ def etch_spec(target_exists):
 
 SGRID = [{"x": v} for v in (0, 1, 7, T1, 2**160 - 1, 2**255, 2**256 - 1)]
 
+BLOCK_OPS = {"warp": "TIMESTAMP", "roll": "NUMBER", "fee": "BASEFEE", "chainId": "CHAINID", "coinbase": "COINBASE", "difficulty": "DIFFICULTY"}
+
+
+def fork_spec(name):
+    """set a block value, fork on the input, and on each side read it, set it to a side-specific value and read it again:
+    what one side sets must not be seen by the other"""
+    p = Prog()
+    sig = f"{name}(uint256)" if name != "coinbase" else "coinbase(address)"
+    op = BLOCK_OPS[name]
+    p.items += e2e.vm(sig, [("push", 7)])
+    p.items += X + [("ref", "side"), "JUMPI"]
+    n0 = p.nout
+    for label, v in ((None, 11), ("side", 13)):
+        if label:
+            p.items += [("label", label)]
+            p.nout = n0
+        p.items += [op]
+        p.out_top()
+        p.items += e2e.vm(sig, [("push", v)])
+        p.items += [op]
+        p.out_top()
+        if not label:
+            p.items += [("ref", "join"), "JUMP"]
+    p.items += [("label", "join")]
+    accounts = {hex(ROOT): {"code": p.finish().hex(), "balance": 10}}
+    return {"accounts": accounts, "target": ROOT, "caller": 0xE0A, "origin": 0xE0B, "value": 0, "calldata": [["sym", "x", 32]], "options": {}, "cheats": True}
+
+
+def etch_seq_spec(fresh):
+    """store, then (re-)etch, then read: vm.etch replaces the code of an account and nothing else.  fresh: the account starts without
+    code (created by an etch of empty code) / is an existing contract"""
+    p = Prog()
+    tgt = 0xDD if fresh else T1
+    code = asm.assemble(getter())
+
+    def etch(tag, blob_code):
+        blob = e2e.sel("etch(address,bytes)").to_bytes(4, "big") + w32(tgt) + w32(64) + w32(len(blob_code)) + blob_code + b"\x00" * ((-len(blob_code)) % 32)
+        p.datas.append(("data", tag, blob))
+        p.items += [("sizeof", tag), ("offsetof", tag), ("push", 0x80), "CODECOPY", "PUSH0", "PUSH0", ("sizeof", tag), ("push", 0x80), "PUSH0", ("pushn", 20, e2e.HEVM), ("push", 0xFFFF), "CALL", "POP"]
+
+    if fresh:
+        etch("e0", b"")
+    p.items += e2e.vm("store(address,bytes32,bytes32)", [("push", tgt)], SLOT, X)
+    p.items += e2e.vm("deal(address,uint256)", [("push", tgt)], [("push", 9)])
+    etch("e1", code)
+    p.items += [("push", tgt), "EXTCODESIZE"]
+    p.out_top()
+    p.items += [("push", 5), "PUSH0", "MSTORE", ("push", 256), ("push", 0x200), ("push", 32), "PUSH0", ("push", tgt), ("push", 0xFFFF), "STATICCALL"]
+    p.out_top()
+    p.out_from_mem(0x200, 2)  # SLOAD(5), SELFBALANCE seen by the etched code
+    p.items += e2e.vm("load(address,bytes32)", [("push", tgt)], SLOT, retsize=32, mem=0x80)
+    p.out_from_mem(0x80, 1)
+    accounts = {
+        hex(ROOT): {"code": p.finish().hex(), "balance": 10},
+        hex(T1): {"code": asm.assemble(getter()[:-3] + ["STOP"]).hex(), "balance": 3},
+    }
+    return {"accounts": accounts, "target": ROOT, "caller": 0xE0A, "origin": 0xE0B, "value": 0, "calldata": [["sym", "x", 32]], "options": {}, "cheats": True}
+
+
+def addr_spec(shape):
+    """vm.addr(privateKey): the same key gives the same address, different keys different ones, and a concrete key its real address.
+    shape: list of key sources out of "x", "y", "k1", "k2", "x+1"; the program returns every address and every pairwise equality"""
+    p = Prog()
+    src = {"x": X, "y": Y, "k1": [("push", 1)], "k2": [("push", 2)], "x+1": X + [("push", 1), "ADD"]}
+    for i, k in enumerate(shape):
+        p.items += e2e.vm("addr(uint256)", src[k], retsize=32, mem=0x80) + [("push", 0x80), "MLOAD", ("push", 0x300 + 32 * i), "MSTORE"]
+    for i in range(len(shape)):
+        p.items += [("push", 0x300 + 32 * i), "MLOAD"]
+        p.out_top()
+    for i in range(len(shape)):
+        for j in range(i + 1, len(shape)):
+            p.items += [("push", 0x300 + 32 * i), "MLOAD", ("push", 0x300 + 32 * j), "MLOAD", "EQ"]
+            p.out_top()
+    accounts = {hex(ROOT): {"code": p.finish().hex(), "balance": 10}}
+    return {"accounts": accounts, "target": ROOT, "caller": 0xE0A, "origin": 0xE0B, "value": 0, "calldata": [["sym", "x", 32], ["sym", "y", 32]], "options": {}, "cheats": True}
+
+
+SECP_N = 0xFFFFFFFFFFFFFFFFFFFFFFFFFFFFFFFEBAAEDCE6AF48A03BBFD25E8CD0364141
+AGRID = [{"x": a, "y": b} for a in (1, 2, 5, SECP_N - 1) for b in (1, 2, 6, SECP_N - 1)]
+ADDR_SHAPES = [["x"], ["k1"], ["x", "y"], ["x", "x"], ["x", "k1"], ["k1", "k2"], ["x", "y", "k2"], ["x", "x+1", "y"], ["y", "x", "y"]]
+
 
 def state_cases():
     out = []
@@ -301,6 +383,12 @@ def state_cases():
                     out.append({"kind": "state", "name": name, "v": v, "target": target, "nested": nested})
     out.append({"kind": "etch", "exists": True})
     out.append({"kind": "etch", "exists": False})
+    for sh in ADDR_SHAPES:
+        out.append({"kind": "addr", "shape": sh})
+    for nm in BLOCK_OPS:
+        out.append({"kind": "fork", "name": nm})
+    out.append({"kind": "etchseq", "fresh": True})
+    out.append({"kind": "etchseq", "fresh": False})
     return out
 
 
@@ -605,6 +693,12 @@ def run_shard(shard):
         for c in shard["cases"]:
             if c["kind"] == "etch":
                 run_prog(acc, etch_spec(c["exists"]), SGRID[:2], f"etch:exists={c['exists']}", dict(c, kind2="state"))
+            elif c["kind"] == "addr":
+                run_prog(acc, addr_spec(c["shape"]), AGRID, f"addr:{','.join(c['shape'])}", dict(c, kind2="state"))
+            elif c["kind"] == "fork":
+                run_prog(acc, fork_spec(c["name"]), SGRID[:3], f"fork:{c['name']}", dict(c, kind2="state"))
+            elif c["kind"] == "etchseq":
+                run_prog(acc, etch_seq_spec(c["fresh"]), SGRID[:3], f"etchseq:fresh={c['fresh']}", dict(c, kind2="state"))
             else:
                 grid = SGRID if c["name"] != "deal" else [g for g in SGRID if g["x"] < 2**128]  # balances above 2^128: documented modelling assumption
                 run_prog(acc, state_spec(c["name"], c["v"], c["target"], c["nested"]), grid, f"state:{c['name']}({c['v']})@{c['target'] if c['target'] == 'x' else hex(c['target'])}:nested={c['nested']}", dict(c, kind2="state"))
@@ -641,6 +735,12 @@ def replay(case):
     elif k == "state":
         if case["kind"] == "etch":
             run_prog(acc, etch_spec(case["exists"]), SGRID[:2], f"etch:exists={case['exists']}", case)
+        elif case["kind"] == "addr":
+            run_prog(acc, addr_spec(case["shape"]), AGRID, f"addr:{','.join(case['shape'])}", case)
+        elif case["kind"] == "fork":
+            run_prog(acc, fork_spec(case["name"]), SGRID[:3], f"fork:{case['name']}", case)
+        elif case["kind"] == "etchseq":
+            run_prog(acc, etch_seq_spec(case["fresh"]), SGRID[:3], f"etchseq:fresh={case['fresh']}", case)
         else:
             run_prog(acc, state_spec(case["name"], case["v"], case["target"], case["nested"]), SGRID, "state", case)
     else:
